@@ -133,6 +133,13 @@ def boundary_values(rng, width, extra_random=4):
             for d in (-2, -1, 0, 1, 2):
                 vals.add(s * (1 << k) + d)
     vals.update([0, 1, -1, 2, -2])
+    # aliases: values that are out of range but congruent to an in-range value modulo a machine word
+    # (a check done on a truncated or masked copy accepts them)
+    for k in sorted(set((width, 8, 16, 32, 64))):
+        for x in (0, 1, (1 << (width - 1)) - 1, -(1 << (width - 1)), (1 << width) - 1):
+            for s in (1, -1):
+                if k >= width:
+                    vals.add(x + s * (1 << k))
     for k in (7, 8, 15, 16, 31, 32, 63, 64):
         if rng.random() < 0.35:
             vals.add(rng.choice((1, -1)) * (1 << k) + rng.randint(-2, 2))
